@@ -61,7 +61,8 @@ L_IDX = {"k": 1, "kmask0": 63, "maxtok": 2, "mintok0": 1, "tokmask": 2, "shapema
 L_ESC = {"k": 1, "kmask0": 63, "maxtok": 2, "mintok0": 1, "tokmask": 64, "shapemask": 262144, "nvals": 2}
 L_LIMIT = {"k": 2, "kmask0": 16, "kmask1": 16, "maxtok": 1, "tokmask": 1, "shapemask": 40960, "nvals": 2, "limit": 1}
 L_LIMIT1 = {"k": 1, "kmask0": 16, "maxtok": 2, "tokmask": 1, "shapemask": 57344, "nvals": 2, "limit": 1}
-MERGE_Q = [{"docm": 2, "docvals": 7, "patchm": 2, "patchvals": 13}, {"docm": 1, "docvals": 2, "patchm": 3, "patchvals": 2}, {"docm": 2, "docvals": 2, "patchm": 2, "patchvals": 6, "emptynames": 1}]
+MERGE_Q = [{"docm": 2, "docvals": 7, "patchm": 2, "patchvals": 13}, {"docm": 1, "docvals": 2, "patchm": 3, "patchvals": 2}, {"docm": 2, "docvals": 2, "patchm": 2, "patchvals": 6, "emptynames": 1},
+           {"docm": 1, "docvals": 2, "patchm": 2, "patchvals": 3, "escnames": 1, "escmask": 6145}]
 MERGE_BOUND = ("documents: objects of <= docm members a,b with values from W (number, string, {k:n}, {k:{j:n}}, [n], null, escape-alphabet string) plus array/number/string roots; "
                "patches: objects of <= patchm members named by one symbolic letter a..d with values from V (null, number, string, {}, {k:null}, {k:n}, {k:{j:null}}, [], [null], [{k:null}]) "
                "(+ {k:null,j:null,i:n}, {k:null,j:{i:null,h:n},g:n}, escape-alphabet string: symbolic plain byte / raw U+2028 / \\f / \\b) or one of 7 non-object patches; leaves symbolic; with emptynames=1 member names may also be the empty string")
@@ -70,9 +71,9 @@ MM_BOUND = ("triples (D,P1,P2): D object of <= docm members (values from W) or a
             "<= patchm members each with one-letter symbolic names a..d and values from the first patchvals entries of V; incompatible pairs skipped as outside the property")
 CREATE_BOUND = ("A, B objects of <= m members, one-letter symbolic names a..d, values chosen by the mask 'vals' from 16 shapes: number, string, {k:n}, {k:n,j:n}, [n], {}, true, null, "
                 "[{k:n,j:n}], [{k:n}], [n,n], [[{k:n,j:n}]], [[{k:n}]], [{k:{i:n,j:n}}], [{k:{i:n}}], [{k:null}], escape-alphabet string, [escape-alphabet string]; leaves symbolic")
-EQ_Q = [{"nshapes": 22, "modes": 15, "containers": 0}]
+EQ_Q = [{"nshapes": 22, "modes": 31, "containers": 0, "escmask": 268305}]
 EQ_BOUND = ("pairs of 22 value shapes (<= 4 nodes, depth <= 2, all six root kinds incl. null, [null], {k:null}, escape-alphabet strings); member names one symbolic letter a..d, leaves symbolic; "
-            "second text independent, \\u00XX-respelled, member-reversed, or padded with symbolic whitespace bytes at every structural position")
+            "second text independent, \\u00XX-respelled, member-reversed, padded with symbolic whitespace bytes at every structural position, or reversed and padded")
 
 R = {}
 R["C01"] = {"harnesses": apply_harnesses(), "anchors": AP_ANCHORS,
@@ -83,10 +84,11 @@ R["C02"] = {"harnesses": [H("H_Merge", MERGE_Q, None, ["merge/end", "merge/objec
             "assumptions": ["member names distinct within an object"],
             "outside_bound": ["documents and patches outside the listed families (more members, deeper nesting)"]}
 R["C03"] = {"harnesses": [
-    H("H_Create", [{"m": 2, "vals": 47}, {"m": 1, "vals": 262143}, {"m": 2, "vals": 65537}], [{"m": 2, "vals": 255}, {"m": 1, "vals": 262143}, {"m": 2, "vals": 65296}, {"m": 2, "vals": 196611}],
+    H("H_Create", [{"m": 2, "vals": 47}, {"m": 1, "vals": 262143}, {"m": 2, "vals": 65537}], [{"m": 2, "vals": 255}, {"m": 1, "vals": 262143}, {"m": 2, "vals": 196611}],
       ["create/end", "create/no-null-target"], CREATE_BOUND),
     H("H_CreateArr", [{"vals": 31}], None, ["createarr/end", "createarr/rejected"], "arrays of 0..2 objects of <= 1 member each (first five value shapes)"),
-    H("H_CreateReject", [{}], None, ["createreject/accepted", "createreject/rejected"], "all 49 pairs of 7 root kinds")],
+    H("H_CreateReject", [{}], None, ["createreject/accepted", "createreject/rejected"], "all 49 pairs of 7 root kinds"),
+    H("H_CreateBig", [{}], None, ["createbig/end"], "concrete numbers that float64 cannot hold exactly (2^53+1, 19 fractional digits, 23 digits, 1E5, 1e400) on a fresh pooled decoder state: carried into the patch verbatim")],
     "anchors": ["v5.CreateMergePatch", "v5.createObjectMergePatch", "v5.createArrayMergePatch", "v5.getDiff", "v5.matchesValue", "v5.matchesArray"],
     "assumptions": ["member names distinct within an object", "null roots and null array elements outside (property)"],
     "outside_bound": ["objects with more than m members or deeper than the listed shapes", "numbers other than one symbolic digit (see C05 for literals)"]}
@@ -132,8 +134,8 @@ R["C07"] = {"harnesses": [H("H_MergeMerge", MM_Q, None, ["mm/end", "mm/non-objec
 R["C16"] = {"harnesses": [
     H("H_C16_Valid", ns(0, 5), ns(0, 7), ["C16/valid/accept", "C16/valid/reject"], "Valid vs the reference recogniser on every byte string of exactly n bytes, all n bytes unconstrained"),
     H("H_C16_Codec", ns(0, 4), ns(0, 6), ["C16/codec/accept", "C16/codec/reject"], "Compact, Indent and Unmarshal(into any) accept iff the reference recogniser does, HTMLEscape does not panic: every byte string of n bytes"),
-    H("H_C16_Template", [{"ntemplates": 7, "k": 1}], [{"ntemplates": 7, "k": 1}, {"ntemplates": 7, "k": 2}], ["C16/template/end", "C16/codec/accept", "C16/codec/reject"],
-      "7 well-formed templates (6-32 bytes: nesting, numbers with fraction/exponent, escapes, multi-byte UTF-8) with k unconstrained bytes inserted at, or overwriting from, every position"),
+    H("H_C16_Template", [{"ntemplates": 8, "k": 1}], [{"ntemplates": 8, "k": 1}, {"ntemplates": 8, "k": 2}], ["C16/template/end", "C16/codec/accept", "C16/codec/reject"],
+      "8 well-formed templates (6-32 bytes: nesting, numbers with fraction/exponent, escapes, multi-byte UTF-8) with k unconstrained bytes inserted at, or overwriting from, every position"),
     H("H_C16_Depth", [{}], None, ["C16/depth/pushed", "C16/depth/limit-hit", "C16/depth/popped", "C16/depth/end"],
       "one scanner step from a parse stack of SYMBOLIC depth d in [0,10000] with arbitrary contents (abstract slice: length a 64-bit variable, contents an SMT array) and an unconstrained byte: push succeeds iff d < 10000, push/pop change the depth by exactly one, no out-of-range access for any d"),
     H("H_C16_Gates", [{}], None, ["C16/gates/accept", "C16/gates/reject"], "8 public entry points (Apply object/array document, DecodePatch, MergePatch document/patch, MergeMergePatches, CreateMergePatch, Equal): a well-formed argument with one unconstrained byte prepended and one appended is accepted when both are JSON whitespace and rejected when the text is no longer well-formed"),
@@ -153,7 +155,8 @@ C12_K2_MIX = {"k": 2, "kmask0": 63, "kmask1": 16, "maxtok": 1, "tokmask": 1, "sh
 C12_PKG = {"k": 1, "kmask0": 16, "maxtok": 1, "tokmask": 1, "shapemask": 40960, "nvals": 2, "optmask": 20}
 C12_K3 = {"k": 3, "kmask0": 16, "kmask1": 16, "kmask2": 16, "maxtok": 1, "tokmask": 32, "shapemask": HTML_SHAPES, "nvals": 2, "optmask": 12}
 C12_K2_ALL = {"k": 2, "kmask0": 16, "kmask1": 16, "maxtok": 2, "tokmask": 1, "shapemask": HTML_SHAPES, "nvals": 2, "optmask": 12}
-R["C12"] = {"harnesses": [H("H_Options_Reuse", [{}], None, ["reuse/end", "reuse/limit-hit"], "one ApplyOptions value reused: a first call (copy + failing test / copy + missing path / three copies / one copy) then 1-2 copies with the same options, limit = any int64, EscapeHTML on/off: the second call behaves as with fresh options"),
+R["C12"] = {"harnesses": [H("H_PackageDefault_Sequence", [{}], None, ["pkgseq/end", "pkgseq/limit-hit"], "Apply, then the package-level limit is changed (both values free int64), then Apply / ApplyIndent: the second call obeys the new default"),
+    H("H_Options_Reuse", [{}], None, ["reuse/end", "reuse/limit-hit"], "one ApplyOptions value reused: a first call (copy + failing test / copy + missing path / three copies / one copy) then 1-2 copies with the same options, limit = any int64, EscapeHTML on/off: the second call behaves as with fresh options"),
     H("H_Apply", [C12_K1, C12_K2, C12_PKG], [C12_K1, C12_K2_ALL, C12_K2_MIX, C12_K3, C12_PKG], ["apply/copy-limit-hit", "apply/end"],
     "documents with strings of 1-2 symbolic bytes over printable ASCII (so <, >, & make the escaped length vary per path); K copy operations (optionally one other operation first) with pointers of <= maxtok one-byte symbolic tokens; "
     "AccumulatedCopySizeLimit = any int64 (one symbolic variable: 0, negative, total-1, total, total+1, MaxInt64 all decided in the same query); EscapeHTML on/off; SupportNegativeIndices symbolic")],
@@ -177,8 +180,9 @@ R["C13"] = {"harnesses": [H("H_Apply", [C13_K1, C13_K1_ALL, C13_K2, C13_K2B, C13
 C14_K1 = {"k": 1, "kmask0": 1, "maxtok": 3, "tokmask": 13, "shapemask": 1561, "nvals": 2, "optmask": 2}
 C14_K1_ALL = {"k": 1, "kmask0": 1, "maxtok": 3, "tokmask": 13, "shapemask": ALLSHAPES, "nvals": 3, "optmask": 2}
 C14_K2 = {"k": 2, "kmask0": 1, "kmask1": 63, "maxtok": 2, "maxtok1": 1, "tokmask": 1, "shapemask": 521, "nvals": 2, "optmask": 2}
+C14_DASHNAME = {"k": 1, "kmask0": 1, "maxtok": 2, "mintok0": 2, "tokmask": 2, "shapemask": 1, "nvals": 1, "optmask": 2}
 C14_ESCPARENT = {"k": 1, "kmask0": 1, "maxtok": 3, "mintok0": 1, "tokmask": 13, "shapemask": 1572864, "nvals": 2, "optmask": 2}
-R["C14"] = {"harnesses": [H("H_Apply", [C14_K1, C14_ESCPARENT], [C14_K1_ALL, C14_K2, C14_ESCPARENT], ["apply/end", "apply/ref-succeeds"],
+R["C14"] = {"harnesses": [H("H_Apply", [C14_K1, C14_ESCPARENT, C14_DASHNAME], [C14_K1_ALL, C14_K2, C14_ESCPARENT, C14_DASHNAME], ["apply/end", "apply/ref-succeeds"],
     "add with EnsurePathExistsOnAdd on/off, paths of <= 3 tokens (one symbolic byte: names, indices 0-9, '-'; or the spellings a~0b / c~1d), over documents in which any prefix of the path may exist; optionally followed by one arbitrary operation; compared ordered with the reference ensure-then-add (created containers hold only the path and null padding; everything else unchanged)"),
     H("H_Ensure_Same", [{"maxtok": 2, "tokmask": 13, "shapemask": 1561, "nvals": 2}], [{"maxtok": 3, "tokmask": 13, "shapemask": ALLSHAPES, "nvals": 2}], ["ensure/plain-add-succeeds"],
       "an add that succeeds without the option gives byte-identical output with it")],
@@ -186,8 +190,8 @@ R["C14"] = {"harnesses": [H("H_Apply", [C14_K1, C14_ESCPARENT], [C14_K1_ALL, C14
     "assumptions": ["outside (property): null or scalar on the path, negative indices, '-' other than last; don't-care (DESIGN appendix A): existing array shorter than the LAST token's index"],
     "outside_bound": ["paths longer than 3 tokens, indices above 9"]}
 R["C05"] = {"harnesses": apply_harnesses() + [H("H_Merge", MERGE_Q, None, ["merge/object-patch"], MERGE_BOUND),
-    H("H_Escape", [{"natoms": 1, "atommask": 262143}], None, ["escape/end"], "escape-alphabet strings (16 atoms) in untouched values and member names: strings keep their value through Apply"),
-    H("H_Apply", [{"k": 0, "maxtok": 1, "tokmask": 1, "shapemask": 262143, "nvals": 2}, {"k": 1, "maxtok": 2, "tokmask": 1, "shapemask": 196608, "nvals": 2, "kmask0": 63}],
+    H("H_Escape", [{"natoms": 1, "atommask": 524287}], None, ["escape/end"], "escape-alphabet strings (16 atoms) in untouched values and member names: strings keep their value through Apply"),
+    H("H_Apply", [{"k": 0, "maxtok": 1, "tokmask": 1, "shapemask": 262143, "nvals": 2, "stable": 1}, {"k": 1, "maxtok": 2, "tokmask": 1, "shapemask": 196608, "nvals": 2, "kmask0": 63, "stable": 1}],
       [{"k": 0, "maxtok": 1, "tokmask": 1, "shapemask": 262143, "nvals": 2}, {"k": 2, "maxtok": 1, "tokmask": 1, "shapemask": 196608, "nvals": 2, "kmask0": 63, "kmask1": 63}], ["apply/end"],
       "literal family: the empty patch on all 18 document shapes, and K operations on two documents whose numbers are the templates d.d, -0, a 23-digit integer with three symbolic digits, 1e400, -d, dEdd with members in non-sorted order: output compared ordered and literal-exact with the reference")],
     "anchors": AP_ANCHORS + ["(*github.com/evanphx/json-patch/v5.partialDoc).TrustMarshalJSON", "v5.mergeDocs"],
@@ -212,7 +216,7 @@ R["C11"] = {"harnesses": [
 TN_ESC = {"escdocs": 1, "atommask": 1025, "kmask0": 17, "maxtok": 1, "tokmask": 33, "nvals": 2, "shapemask": 0}
 TN_PLAIN = {"escdocs": 0, "atommask": 0, "kmask0": 63, "maxtok": 1, "tokmask": 1, "nvals": 2, "shapemask": 8218}
 R["C15"] = {"harnesses": [
-    H("H_Escape", [{"natoms": 1, "atommask": 262143}], [{"natoms": 1, "atommask": 262143}, {"natoms": 2, "atommask": 3391}], ["escape/on", "escape/off", "escape/end"],
+    H("H_Escape", [{"natoms": 1, "atommask": 524287}], [{"natoms": 1, "atommask": 524287}, {"natoms": 2, "atommask": 3391}], ["escape/on", "escape/off", "escape/end"],
       "4 document shapes carrying strings (values and member names, top level, nested, inside arrays) of natoms atoms from the escape alphabet: any printable ASCII byte (symbolic: covers <, >, &), escaped quote, escaped backslash, \\u001f, raw U+2028, raw U+2029, \\u2028, raw non-BMP, lone-surrogate escape, \\n, \\u003c, \\f, \\b, \\t, \\r, \\/; 6 patches (empty, add elsewhere, copy/move of the string, add of a value carrying such a string, copy of the whole document); EscapeHTML on/off; indent of 1-2 bytes from space/tab"),
     H("H_TestNeutral", [TN_ESC, TN_PLAIN], [dict(TN_ESC, atommask=2047, kmask0=63, maxtok=2), dict(TN_PLAIN, maxtok=2, shapemask=8191)], ["testneutral/end"],
       "one operation plus one PASSING test (value = the current value at a chosen path, before or after the operation) vs the operation alone: byte-identical output; EscapeHTML on/off; documents with <, >, & in strings"),
@@ -220,6 +224,7 @@ R["C15"] = {"harnesses": [
     H("H_Merge", MERGE_Q, None, ["merge/end"], "MergePatch outputs parse"),
     H("H_MergeMerge", [MM_Q[0]], None, ["mm/end"], "MergeMergePatches outputs parse"),
     H("H_Create", [{"m": 1, "vals": 65535}], None, ["create/end"], "CreateMergePatch outputs parse"),
+    H("H_CreateBig", [{}], None, ["createbig/end"], "CreateMergePatch with numbers outside float64 on a fresh decoder: the patch reads back as the intended value"),
     H("H_Bytes_ApplyDoc", ns(0, 3), ns(0, 5), ["bytes/applydoc/wellformed"], "every successful Apply on n arbitrary document bytes returns a well-formed text"),
     H("H_Bytes_ApplyOpts", ns(0, 3), ns(0, 5), ["bytes/applyopts/end"], "same for ApplyIndentWithOptions with symbolic options"),
     H("H_Bytes_Merge", ns(0, 3), ns(0, 5), ["bytes/merge/wellformed"], "merge outputs on arbitrary bytes are well-formed")],
@@ -238,7 +243,7 @@ R["C19"] = {"harnesses": [
     H("H_Merge", MERGE_Q, None, ["merge/end", "merge/object-patch"], MERGE_BOUND + " (asserted for object and array patches)", target="legacy"),
     H("H_MergeMerge", [MM_Q[0], {"docm": 1, "docvals": 2, "patchm": 2, "patchvals": 4, "nonobjdocs": 0}], MM_Q, ["mm/end"], MM_BOUND, target="legacy"),
     H("H_Create_Legacy", [{"m": 2, "vals": 7}, {"m": 1, "vals": 65535}], [{"m": 2, "vals": 63}, {"m": 1, "vals": 65535}], ["create/end"], CREATE_BOUND + "; numbers are CONCRETE one-digit integers (the legacy path goes through float64; no float theory in the engine)", target="legacy"),
-    H("H_Equal", [{"nshapes": 20, "modes": 13, "containers": 1}], None, ["equal/true", "equal/false"], EQ_BOUND + " (object and array roots, no escaped spellings)", target="legacy")],
+    H("H_Equal", [{"nshapes": 20, "modes": 29, "containers": 1}], None, ["equal/true", "equal/false"], EQ_BOUND + " (object and array roots, no escaped spellings)", target="legacy")],
     "anchors": ["json-patch.doMergePatch", "json-patch.mergeDocs", "json-patch.pruneNulls", "json-patch.CreateMergePatch", "json-patch.getDiff", "json-patch.matchesValue", "json-patch.Equal", "(*github.com/evanphx/json-patch.lazyNode).equal"],
     "assumptions": ["staged legacy module as for C18", "CreateMergePatch numbers concrete plain integers (float64-exact)", "Equal on object/array roots without escapes (property)"],
     "outside_bound": ["families as for C02/C03/C06/C07 at their quick bounds"]}
@@ -263,11 +268,12 @@ R["C09"] = {"harnesses": [
     "outside_bound": ["histories with more than 2 intervening calls (1 in quick)", "the inductive step covers the decoder state only (encodeState and scanner pool are covered by the histories)"]}
 
 R["C17"] = {"harnesses": [
-    H("H_Codec_RoundTrip", [{"natoms": 1, "atommask": 262143, "pad": 0}, {"natoms": 1, "atommask": 1, "pad": 1}], [{"natoms": 2, "atommask": 3391, "pad": 0}, {"natoms": 1, "atommask": 262143, "pad": 1}], ["codec/object", "codec/roundtrip-end"],
+    H("H_Codec_RoundTrip", [{"natoms": 1, "atommask": 524287, "pad": 0}, {"natoms": 1, "atommask": 1, "pad": 1}], [{"natoms": 2, "atommask": 3391, "pad": 0}, {"natoms": 1, "atommask": 524287, "pad": 1}], ["codec/object", "codec/roundtrip-end"],
       "8 JSON templates (string, number, mixed array, object, nested object/array, escape-alphabet member name, array of objects, 23-digit integer) with symbolic leaves (numbers d.d / -d / dEd, strings of natoms escape-alphabet atoms, one-letter symbolic names), optionally padded with symbolic whitespace bytes at every structural position: UnmarshalValid -> Marshal / MarshalEscaped(false) read back as the same value; Compact / Indent / HTMLEscape keep value and member order; Indent = Compact re-indented; key lists of UnmarshalWithKeys / UnmarshalValidWithKeys in document order"),
-    H("H_Codec_Differential", [{"atommask": 262143}], None, ["codec/differential-end"],
+    H("H_Codec_Differential", [{"atommask": 524287}], None, ["codec/differential-end"],
       "fork vs the standard library's encoding/json, BOTH executed from source: Marshal bytes and Unmarshal results for map[string]any, []any, []string, map[string]string, string and a harness-declared struct type with a renamed field, '-', omitempty, ',string', a nested pointer struct, a map field and an embedded struct; string leaves from the escape alphabet, bool symbolic, ints from {0,7,42}; []byte values of 0, 1, 47, 48, 49, 63, 64, 65, 100 bytes (base64 path, scratch-buffer boundary) bare and inside a map"),
-    H("H_Codec_Stream", [{"atommask": 262143}], None, ["codec/stream-end"],
+    H("H_CreateBig", [{}], None, ["createbig/end"], "numbers outside float64 keep their literal through UnmarshalValid on a fresh pooled state (seen through CreateMergePatch)"),
+    H("H_Codec_Stream", [{"atommask": 524287}], None, ["codec/stream-end"],
       "Decoder (UseNumber) over a stream of two values separated by a symbolic whitespace byte, More(), and Encoder with SetEscapeHTML on/off: same decoded values as the standard library's Decoder, one value per line on output, values read back unchanged"),
     H("H_C17_Fold", [{"ns": 2, "nt": 2}, {"ns": 1, "nt": 3}, {"ns": 2, "nt": 4}], [{"ns": 2, "nt": 2}, {"ns": 1, "nt": 3}, {"ns": 2, "nt": 4}, {"ns": 3, "nt": 3}, {"ns": 3, "nt": 5}], ["C17/fold/end"],
       "equalFoldRight, asciiEqualFold, simpleLetterEqualFold vs a reference simple-fold comparison, under their documented preconditions: s = ns unconstrained ASCII bytes, t = nt unconstrained bytes (covers K/U+212A and S/U+017F)")],
